@@ -9,11 +9,11 @@ LEVEL = "model_checking"
 EXHAUSTIVE = True
 CHUNK = 1
 CASE_TIMEOUT = 900
-RULE = ("breadth-first search over all statement sequences up to the depth bound over a 38-statement alphabet in which every size path "
+RULE = ("breadth-first search over all statement sequences up to the depth bound over a 42-statement alphabet in which every size path "
         "is present (fixed sizes, sizes known only after a later symbol, address-dependent sizes, '. =' skips, repeats with parity-"
-        "dependent bodies, inserted files, includes nested to depth 3, label-only and assignment lines), each sequence assembled as a "
+        "dependent bodies, inserted files, includes nested to depth 3, an included file and a repeat body with text behind a pending chunk, label-only and assignment lines), each sequence assembled as a "
         "fresh run under the link regimes {default base, .link first at 1000/1001/0/157770, .link last}; plus every ordered 1-3 tuple "
-        "of a 6-file alphabet; plus the 21 practice programs. On every error-free run (a) the hook trace invariants hold: consecutive "
+        "of an 8-file alphabet (two files hold text behind a chunk that is pending when first met); plus the 21 practice programs. On every error-free run (a) the hook trace invariants hold: consecutive "
         "statements of a block are contiguous, the image holds each statement's bytes at the address it was given (nested blocks "
         "included), the image length is the sum of top-level sizes, every label equals the address of the bytes that follow it; and (b) "
         "the image, including a '.word L0,L1,...' probe table, equals the reference layout byte for byte. state = one statement "
@@ -24,11 +24,11 @@ A = alphabet
 REGIMES_ALL = [("none", 0o1000), ("first", 0o1000), ("first", 0o1001), ("first", 0), ("first", 0o157770), ("last", 0o1000), ("last", 0o1001)]
 REGIMES_Q3 = [("none", 0o1000), ("first", 0o1000), ("first", 0o1001), ("last", 0o1000)]
 PRACTICE = os.path.join(driver.REPO, "tests", "practice")
-FILES6 = [["nop", "byte1"], ["even", "worddot"], ["blkbf", "mov4"], ["ascii3"], ["repf", "label"], ["incinc", "assign"]]
+FILES6 = [["nop", "byte1"], ["even", "worddot"], ["blkbf", "mov4"], ["ascii3"], ["repf", "label"], ["incinc", "assign"], ["blkbf", "ascii2"], ["even", "worddot", "asciz2", "byte1"]]
 
 
 def bound(tier):
-    return "depth %d complete over 38 statements (depth <= %d under all 7 regimes, deepest level under %d regimes); 258 file tuples x 7 regimes; 21 practice programs" % (
+    return "depth %d complete over 42 statements (depth <= %d under all 7 regimes, deepest level under %d regimes); 584 file tuples x 7 regimes; 21 practice programs" % (
         (4, 3, 3) if tier == "thorough" else (3, 2, 4))
 
 
@@ -47,7 +47,7 @@ def cases(tier):
                     else:
                         yield {"k": "seq", "d": d, "first": [f], "link": link, "base": base}
     for n in (1, 2, 3):
-        for tup in itertools.product(range(6), repeat=n):
+        for tup in itertools.product(range(len(FILES6)), repeat=n):
             yield {"k": "files", "files": list(tup)}
     for name in sorted(os.listdir(PRACTICE)):
         yield {"k": "practice", "name": name}
